@@ -66,7 +66,26 @@ func boundaryScalar(t *tape.Tape, n *big.Int) (*big.Int, string) {
 	}
 }
 
+// wrappedCurve is a Go curve value that is not one of the stock ones but
+// behaves exactly like the stock curve it embeds (same Params): the shape a
+// PKCS#11 or cloud-KMS shim hands out.  crypto/ecdsa dispatches on Params(), so
+// such a key signs normally; its signatures have the stock curve's width.
+type wrappedCurve struct{ elliptic.Curve }
+
 func c16Key(t *tape.Tape) *KeyPair {
+	k := c16KeyStock(t)
+	if t.Bool(1, 6, "c16.wrappedcurve") {
+		p := k.Priv.(*ecdsa.PrivateKey)
+		w := &ecdsa.PrivateKey{PublicKey: ecdsa.PublicKey{Curve: wrappedCurve{p.Curve}, X: p.X, Y: p.Y}, D: p.D}
+		c := *k
+		c.Priv = w
+		c.Name = k.Name + "/wrapped-curve"
+		return &c
+	}
+	return k
+}
+
+func c16KeyStock(t *tape.Tape) *KeyPair {
 	k := poolEC[t.Choose(len(poolEC), "c16.key")]
 	if t.Bool(1, 3, "c16.otheralg") {
 		// the library lets an ES* algorithm be used with any of the three curves
@@ -93,7 +112,7 @@ func scenarioC16(r *Run) {
 func c16HSM(r *Run, t *tape.Tape) {
 	k := c16Key(t)
 	priv := k.Priv.(*ecdsa.PrivateKey)
-	curve := priv.Curve
+	curve := k.Curve
 	n := curve.Params().N
 	hsm := &HSM{Key: priv}
 	var signer cose.Signer
@@ -207,7 +226,7 @@ func zeroClass(c string) string {
 func c16SearchRealSig(t *tape.Tape, priv *ecdsa.PrivateKey, alg int64, content []byte) (*big.Int, *big.Int) {
 	h := refcose.HashFor(alg)
 	digest := refcose.Digest(h, content)
-	size := refcose.OrderLen(priv.Curve)
+	size := refcose.OrderLen(elliptic.Curve(priv.Curve))
 	seed := uint64(t.U32("c16.search.seed"))
 	want := t.Bool(3, 4, "c16.search.wantzero")
 	var rr, ss *big.Int
@@ -229,7 +248,7 @@ func c16SearchRealSig(t *tape.Tape, priv *ecdsa.PrivateKey, alg int64, content [
 func c16Native(r *Run, t *tape.Tape) {
 	k := c16Key(t)
 	priv := k.Priv.(*ecdsa.PrivateKey)
-	curve := priv.Curve
+	curve := k.Curve
 	size := refcose.OrderLen(curve)
 	name := curve.Params().Name
 	signer := r.signerFor(k, false)
@@ -312,7 +331,7 @@ func c16Native(r *Run, t *tape.Tape) {
 func c16Verifier(r *Run, t *tape.Tape) {
 	k := c16Key(t)
 	priv := k.Priv.(*ecdsa.PrivateKey)
-	curve := priv.Curve
+	curve := k.Curve
 	size := refcose.OrderLen(curve)
 	name := curve.Params().Name
 	content := t.Bytes(1+t.Choose(40, "c16.content.n"), "c16.content")
@@ -337,7 +356,14 @@ func c16Verifier(r *Run, t *tape.Tape) {
 	good := refcose.ECDSASigBytes(curve, rr, ss)
 	var offered []byte
 	variant := ""
-	switch t.Choose(14, "c16.variant") {
+	switch t.Choose(15, "c16.variant") {
+	case 14:
+		// r, then one to three zero octets, then s: an odd or even total that
+		// halves "almost" right (a peer that pads s one octet too far, or a
+		// record separator left between the halves)
+		k0 := 1 + t.Choose(3, "c16.midzero.n")
+		offered = append(append(append([]byte{}, good[:size]...), make([]byte, k0)...), good[size:]...)
+		variant = "mid-zero"
 	case 13:
 		// the first bytes of a DER signature, or a DER header with nothing
 		// behind it: what a truncating channel leaves of a DER-encoding peer's
